@@ -67,7 +67,8 @@ def emit_machine(prog, m, out, is_root, opts):
     if m.history != 'none':
         h = 'VF_HIST_ALWAYS' if m.history == 'always' else 'VF_HIST_SHALLOW(%s)' % ', '.join(m.history[1])
         out.append('  VF_FRONT_HISTORY(%s)' % h)
-    if opts.get('sm_extra', {}).get(m.name): out.append('  ' + opts['sm_extra'][m.name])
+    sx = (getattr(prog, 'sm_extra', None) or opts.get('sm_extra', {})).get(m.name)
+    if sx: out.append('  ' + sx)
     for st in m.states.values():
         if st.kind == 'sub': continue
         base = {'simple': 'msm::front::state<>',
@@ -99,7 +100,7 @@ def emit_machine(prog, m, out, is_root, opts):
     if expl: out.append('  typedef mpl::vector<%s > explicit_creation;' % ', '.join(expl))
     rows = []
     for r in m.rows:
-        ge = guard_expr(r.guard, r.evt is None)
+        ge = guard_expr(r.guard, r.evt is None or r.act == 'defer')
         if getattr(r, 'gsend', None):
             ge = 'GdSend<%d, %s, %d>' % (r.guard, r.gsend[0][0], {'p': 0, 'q': 1}[r.gsend[0][1]])
         rows.append('Row<%s, %s, %s, %s, %s >' % (row_src(m, r), evt_expr(prog, r.evt), row_tgt(m, r), act_expr(r.act), ge))
@@ -394,22 +395,31 @@ def step_call(prog, st, decs=None, pay='0'):
     if st[0] == 'start': return pre + 'VFN(vf_start)();'
     if st[0] == 'stop': return pre + 'VFN(vf_stop)();'
     if st[0] == 'ev':
-        return pre + '(void)VFN(vf_ev)(%d, %s);' % (prog.events.index(st[1]), pay)
+        return pre + '(void)VFN(vf_ev)(%d, %s);' % (prog.events.index(st[1]), st[2] if len(st) > 2 and st[2] != 'P' else pay)
     if st[0] == 'enq': return pre + 'VFN(vf_enq)(%d, %s);' % (prog.events.index(st[1]), st[2] if len(st) > 2 and st[2] != 'P' else pay)
     if st[0] == 'execq': return pre + 'VFN(vf_execq)();'
     if st[0] == 'exec1': return pre + 'VFN(vf_exec1)();'
     raise ValueError(st)
 
 
-def active_completion_sites(prog, conf):
-    """guard sites of completion rows whose source state is active: the quantifier of C10 holds them fixed (false) until the state is re-entered"""
-    mask = 0
-    if not conf.started: return 0
+def fixed_guard_sites(prog, conf):
+    """guard sites the quantifiers hold fixed during the step: (mask, value)
+    * completion rows whose source state is active: false until the state is re-entered (C10)
+    * Defer-action rows of active states while a deferred event is pending: the deferring condition persists (C05)"""
+    mask = 0; val = 0
+    if not conf.started: return 0, 0
     for m in conf.active_machines():
         for name in conf.m[m.name]['active']:
             for row in m.rows:
-                if row.evt is None and row.src == name and row.guard is not None: mask |= 1 << row.guard
-    return mask
+                if row.guard is None or row.src != name: continue
+                if row.evt is None: mask |= 1 << row.guard
+                elif row.act == 'defer' and any(e[0] == row.evt for e in conf.deferred):
+                    mask |= 1 << row.guard; val |= 1 << row.guard
+    return mask, val
+
+
+def active_completion_sites(prog, conf):
+    return fixed_guard_sites(prog, conf)[0]
 
 
 def emit_harness(prog, confs, steps, tag, proj=KINDS_ALL, check_result=True, check_post=True, check_flags=False, probe=None, check_introspect=False, check_queue=False,
@@ -474,14 +484,14 @@ def emit_harness(prog, confs, steps, tag, proj=KINDS_ALL, check_result=True, che
         out.append('  kind = VF_KIND; vf_inputs[1] = kind;   /* one query per event kind (guards and payload stay symbolic) */')
         out.append('#endif')
         out.append('  int32_t P = (int32_t)vf_nondet(2);')
-        cm = active_completion_sites(prog, conf)
+        cm, cv = fixed_guard_sites(prog, conf)
         out.append('#ifndef VF_GFIX_MASK')
         out.append('#define VF_GFIX_MASK 0u')
         out.append('#define VF_GFIX_VAL 0u')
         out.append('#endif')
         out.append('  /* all guard sites nondet, except: sites fixed by a case split of the check engine; completion guards of states')
-        out.append('     active in the pre-state stay false (quantifier of C10: fixed until the state is re-entered) */')
-        out.append('  vf_nondet_guards(VF_GFIX_MASK | 0x%xu, VF_GFIX_VAL & ~0x%xu);' % (cm, cm))
+        out.append('     active in the pre-state stay false (C10) and Defer guards stay true while an event is pending (C05) */')
+        out.append('  vf_nondet_guards(VF_GFIX_MASK | 0x%xu, (VF_GFIX_VAL & ~0x%xu) | 0x%xu);' % (cm, cm, cv))
         out.append('  vf_nlog = 0; uint32_t r = 0;')
         alt = 0
         if my_ev:
@@ -542,8 +552,8 @@ def emit_product_harness(prog, confs, steps, tag, maxslots=8):
             if st[0] == 'start': out.append('  VFA(vf_start)(); VFB(vf_start)();')
             elif st[0] == 'stop': out.append('  VFA(vf_stop)(); VFB(vf_stop)();')
             else:
-                k = prog.events.index(st[1])
-                out.append('  (void)VFA(vf_ev)(%d, 0); (void)VFB(vf_ev)(%d, 0);' % (k, k))
+                k = prog.events.index(st[1]); pv = st[2] if len(st) > 2 and st[2] != 'P' else '0'
+                out.append('  (void)VFA(vf_ev)(%d, %s); (void)VFB(vf_ev)(%d, %s);' % (k, pv, k, pv))
         out.append('  vf_in_prefix = 0;')
         out.append('  vf_compare_cfg("%s:prefix");' % tag)
         my_steps = [st for st in steps if (st[0] == 'start') != conf.started]
@@ -555,12 +565,12 @@ def emit_product_harness(prog, confs, steps, tag, maxslots=8):
         out.append('  kind = VF_KIND; vf_inputs[1] = kind;')
         out.append('#endif')
         out.append('  int32_t P = (int32_t)vf_nondet(2);')
-        cm = active_completion_sites(prog, conf)
+        cm, cv = fixed_guard_sites(prog, conf)
         out.append('#ifndef VF_GFIX_MASK')
         out.append('#define VF_GFIX_MASK 0u')
         out.append('#define VF_GFIX_VAL 0u')
         out.append('#endif')
-        out.append('  vf_nondet_guards(VF_GFIX_MASK | 0x%xu, VF_GFIX_VAL & ~0x%xu);' % (cm, cm))
+        out.append('  vf_nondet_guards(VF_GFIX_MASK | 0x%xu, (VF_GFIX_VAL & ~0x%xu) | 0x%xu);' % (cm, cm, cv))
         out.append('  vf_pn[0] = vf_pn[1] = 0; uint32_t ra = 0, rb = 0;')
         alt = 0
         if my_ev:
